@@ -583,14 +583,18 @@ impl Prop for C20 {
         Case { name, layers, config: rng.chance(1, 3), via_dir: rng.chance(1, 3), foreign, faults, chunk_r, chunk_w, clock_jumps, hash_seed: rng.next() }
     }
     fn enum_plan(&self, tier: Tier, seed: u64) -> Vec<(u64, u64)> {
-        // the disk fills up after a *total* byte budget, whichever builder call crosses it: a grid of 400 budgets
-        // (every 61 bytes up to 18 KB, and the three bytes around each of the first 100 tar block boundaries)
-        // for each of N histories
-        let n = match tier {
-            Tier::Quick => 5,
-            Tier::Thorough => 300,
+        // (a) the disk fills up after a *total* byte budget, whichever builder call crosses it: a grid of 400
+        //     budgets (every 61 bytes up to 18 KB, and the three bytes around each of the first 100 tar block
+        //     boundaries) for each of N histories;
+        // (b) a hard read error at *every* one of the first 300 read calls made while the finished archive is read
+        //     back, for each of M histories. The group seed's lowest bit tells which.
+        let (n, m) = match tier {
+            Tier::Quick => (5, 3),
+            Tier::Thorough => (300, 200),
         };
-        (0..n).map(|i| (400, crate::rng::mix(&[seed, 0xC20, i]))).collect()
+        let mut plan: Vec<(u64, u64)> = (0..n).map(|i| (400, crate::rng::mix(&[seed, 0xC20, i]) & !1)).collect();
+        plan.extend((0..m).map(|i| (300, crate::rng::mix(&[seed, 0xB20, i]) | 1)));
+        plan
     }
     fn enum_case(&self, gs: u64, k: u64) -> Case {
         let mut rng = Rng::new(gs);
@@ -598,9 +602,15 @@ impl Prop for C20 {
         while c.layers.is_empty() || c.foreign != 0 {
             c = self.gen(&mut rng, Tier::Quick, 1);
         }
+        c.via_dir = false;
+        if gs & 1 == 1 {
+            let n_ops = c.layers.len() as u32 + 3;
+            c.faults = vec![Fault { op: n_ops + 1, role: ARCHIVE.into(), dir: Dir::R, at: At::Call(k), act: Act::Eio }];
+            c.chunk_r = Chunk::Whole;
+            return c;
+        }
         let budget = if k < 300 { k * 61 } else { 512 * (k - 299) - 1 + (k % 3) };
         c.faults = vec![Fault { op: simos::ANY_OP, role: ARCHIVE.into(), dir: Dir::W, at: At::Byte(budget), act: Act::Enospc }];
-        c.via_dir = false;
         c
     }
     fn sim_params(&self, c: &Case) -> SimParams {
@@ -955,7 +965,7 @@ impl Prop for C20 {
     }
 
     fn rule(&self) -> String {
-        "one run = (history of 0-6 add operations over the four layer kinds with seeded messages (maps, nested functions, removed constraints, dependencies, empty messages) and annotation specs (title, authors, created explicit/now, licence, dataset, counts, start/end, digests, JSON parameters, user keys), some messages repeated so that layers share a digest; named or unnamed archive; optional config; optional route archive -> OCI directory -> re-saved archive; or a non-OMMX image; write-side fault in one operation: ENOSPC at a byte budget, EIO, EINTR, short writes, open failure; read-side faults; chunking; simulated-clock jumps between operations; hash seed). Enumerated part: for each of N histories the disk fills up after a total byte budget on a grid of 400 budgets (every 61 bytes, and around every tar block boundary). distinct = distinct event-log hash; non-trivial = >=2 layers or a fault fired".into()
+        "one run = (history of 0-6 add operations over the four layer kinds with seeded messages (maps, nested functions, removed constraints, dependencies, empty messages) and annotation specs (title, authors, created explicit/now, licence, dataset, counts, start/end, digests, JSON parameters, user keys), some messages repeated so that layers share a digest; named or unnamed archive; optional config; optional route archive -> OCI directory -> re-saved archive; or a non-OMMX image; write-side fault in one operation: ENOSPC at a byte budget, EIO, EINTR, short writes, open failure; read-side faults; chunking; simulated-clock jumps between operations; hash seed). Enumerated part: for each of N histories the disk fills up after a total byte budget on a grid of 400 budgets (every 61 bytes, and around every tar block boundary); for each of M histories a hard read error at every one of the first 300 read calls of the read-back. distinct = distinct event-log hash; non-trivial = >=2 layers or a fault fired".into()
     }
     fn assumptions(&self) -> Vec<String> {
         vec![
